@@ -74,6 +74,7 @@ func main() {
 	deadlineS := flag.Int("deadline", 600, "")
 	replay := flag.String("replay", "", "comma-separated schedule to replay")
 	maxViol := flag.Int("maxviol", 5, "")
+	maxStates := flag.Int("maxstates", 0, "stop (exhaustive=false) when the visited set holds this many states (memory bound; 0 = none)")
 	cpuprof := flag.String("cpuprofile", "", "")
 	flag.Parse()
 	if *cpuprof != "" {
@@ -206,7 +207,7 @@ func main() {
 	sigSeen := map[string]bool{}
 	deadline := start.Add(time.Duration(*deadlineS) * time.Second)
 	for len(stack) > 0 {
-		if time.Now().After(deadline) {
+		if time.Now().After(deadline) || (*maxStates > 0 && len(visited) > *maxStates) {
 			st.Exhaustive = false
 			break
 		}
